@@ -71,7 +71,8 @@ def enumerate_cases(tier, master):
         pts = record_points(sh)
         for stack, plist in sorted(pts.items()):
             for (f, line, n) in plist:
-                holds = HOLDS_US if tier == 'thorough' else [HOLDS_US[idx % 3]]
+                # (chained shapes: what matters is whether the follow-up submission falls into the hold, so every hold time is tried)
+                holds = HOLDS_US if (tier == 'thorough' or sh.get('chain')) else [HOLDS_US[idx % 3]]
                 idx += 1
                 for h in holds:
                     c = copy.deepcopy(sh)
